@@ -5,7 +5,24 @@ ROOT = os.path.dirname(os.path.dirname(os.path.abspath(__file__)))
 props = [json.loads(l) for l in open(os.path.join(ROOT, "properties.jsonl"))]
 ids = [p["id"] for p in props]
 
+LANE_TECH = 'TLA+ (DQState.tla + Lane.tla, one action per atomic access) model-checked with TLC; bound to the code by (1) exhaustive function-level conformance of the real inline dq_state functions against the DQState operators, (2) word-level trace validation of every recorded dq_state access of hooked real executions, (3) the property evaluated on the recorded API order'
+LANE_NOTE = "Bounds: TLC explores 2 clients x 2 pool workers with 3-4 items per configuration (thorough: 4-item programs, ~1e6 states each); the root queue is a fair bag; real executions are seeded samples of schedules (perturbation injected inside the library's atomicity windows), not all of them; function-level conformance is exhaustive over the abstract dq_state domain for widths 1-3."
 CHECKS = {
+ "C01": dict(technique=LANE_TECH,
+   text="Lane.tla transcribes push / wakeup / drain / unlock / waiter hand-off of a serial or concurrent lane; TLC checks exactly-once, nothing stranded at quiescence, async submission never blocks (ENABLED), sync calls return, and termination under fairness over all interleavings of the configured programs, and refutes the 'unlock ignores DIRTY' mutant. The real dq_state functions are compared with the spec operators on every abstract state; recorded executions (ping-pong resubmission, sync/async mixes, narrowed concurrent queues) must have every dq_state transition explained by the operator of its C function, and every item must run exactly once with no hang.",
+   note=LANE_NOTE + " Pool growth when all workers are blocked is not modelled yet (observed only through the hang oracle).", design_ref="7/C01"),
+ "C02": dict(technique=LANE_TECH,
+   text="Same machine with W = 1: TLC checks that no two items of a serial lane overlap and that submission order (return-before-call, and same-thread program order) is execution order for async, sync, barrier and async_and_wait paths; the model of the repaired defect F1 (fast path without the dq_items_tail check) is kept as a mutant that TLC must refute, and the F1 schedule is steered on the real library on every run. Real executions: overlap / order / plain-counter oracles on the recorded total order plus word-level validation.",
+   note=LANE_NOTE + " The thread-bound main queue is not modelled.", design_ref="7/C02"),
+ "C04": dict(technique=LANE_TECH,
+   text="Lane.tla with W = 2: width accounting exactly as the code (pending barrier reservation, full-width upgrade, last-reader-takes-lock, drain_non_barriers); TLC checks barrier exclusion, ordering against items whose submission completed before / started after the barrier, width conservation, and refutes 'reader ignores PENDING_BARRIER'. Real queues are narrowed to width 2/3 so the same arithmetic is exercised; every recorded dq_state transition is validated and exclusion/order are evaluated on the recorded order; F1 through dispatch_barrier_sync is steered on the real library.",
+   note=LANE_NOTE + " dispatch_apply on the queue is decided under C10.", design_ref="7/C04"),
+ "C05": dict(technique=LANE_TECH,
+   text="SyncAfterEnd (a synchronous submission returns only after its item finished) is an invariant of Lane.tla on every path (fast path, slow path with lock transfer, waiter woken by the drainer); TLC refutes 'sync does not wait'. On real executions the driver checks, for every item, that the submitter's plain writes are visible in the item, the item's plain writes are visible after the synchronous call returns, and exclusive items chain a plain counter without loss; visibility is judged on this machine's TSO model as the property states. Group, semaphore and once hand-off edges are decided by C07 / C08 / C09.",
+   note=LANE_NOTE + " Memory-order annotations are not weakened/explored (TLA+ is sequentially consistent): only missing communication steps are decided.", design_ref="7/C05, 5.6"),
+ "C06": dict(technique=LANE_TECH,
+   text="Lane.tla + DQState suspend/resume/activate operators (inline count with overflow into the side count under the side lock, the five outcomes of the resume RMW, the activation step): TLC checks that nothing starts while suspended from the lane's own context or before activation, at most one committed item after a foreign suspend on a serial lane, counter balance (N suspends need N resumes), no crash, and that everything (blocked sync callers included) runs after the last resume / activation; refutes 'drain ignores suspension'. Real executions nest suspensions up to depth 120 (crossing the 63/32 boundary) from several threads, suspend from inside items, create queues initially inactive; windows are judged on the recorded order and every dq_state transition is validated.",
+   note=LANE_NOTE + " Model uses capacity 3 / transfer unit 2 for the inline counter; the real constants are exercised by the word-level traces.", design_ref="7/C06"),
  "C08": dict(
    technique="TLA+ spec (Semaphore.tla) model-checked with TLC + trace validation of hooked real executions against the same actions + API oracles",
    text="TLC explores every interleaving of 3 threads x 2 calls (signal, poll, timed, untimed wait) of a one-action-per-atomic transcription of semaphore.c and checks permit conservation, no spurious success, timeout-only-after-timeout, a structural deficit invariant and release of waiters under fairness; every recorded execution of the real library (hooked atomics + sem_t probes, schedule perturbation) must be a behaviour of that spec with all invariants evaluated in every state.",
